@@ -109,6 +109,12 @@ def check_scan(chk, rep0, repo, pre="", only=None):
            qargs.get("X") == ("param", fn.params[1]),
            f"the query nodes are built from '{show(qargs.get('X')) if qargs.get('X') else '?'}' instead of the argument '{fn.params[1]}': "
            "a converted / rounded / re-typed copy is classified, not the sample that was passed", line=per.line)
+    # ... and every query node carries the dataset index the caller gave for it (the column of a pre-computed matrix)
+    if len(fn.params) > 2:
+        rep.fn("SCAN-query-ids", fn, "the query graph receives the caller's index array", qargs.get("I") == ("param", fn.params[2]),
+               f"the query nodes get '{show(qargs.get('I')) if qargs.get('I') else 'no index array'}' as identifiers instead of the "
+               f"argument '{fn.params[2]}': with pre-computed distances d(t, x) is read from the column of the batch position",
+               line=per.line)
     n_nodes = ("attr", G, "n_nodes")
     sizes = [n_nodes, ("call", ("builtin", "len"), (("attr", G, "nodes"),), ()),
              ("call", ("builtin", "len"), (("attr", G, "idx_nodes"),), ())]
